@@ -295,6 +295,9 @@ def edge_replay(rep, g, c, traces, maxedges, rng):
             except impl.Timeout:
                 raise
             except Exception as ex:
+                if rep.pid != 'C07':      # (edge replay used by another check: exceptions are judged by the C07 check)
+                    rep.exclude('%s step %s raised %r (judged by the C07 check)' % (c['name'], sorted(sel), ex))
+                    continue
                 if c['version'] not in (0, 1, 2):      # outside the documented versions the property quantifies over
                     rep.drift('version %s (outside the documented versions 0-2): %s step %s raised %r' % (c['version'], c['name'], sorted(sel), ex))
                     continue
